@@ -272,10 +272,18 @@ def broadcast_rule(run, f):
             for (_bid, t) in cb.calls():
                 if (t.get("trait") or "").endswith("listener::Listener"):
                     called.add(norm(t["orig"]).rsplit("::", 1)[1])
-        # iterates self.listeners
-        du = DefUse(b)
-        iters = [t for (_x, t) in find_calls(b, lambda c, t: (t.get("trait") or "").endswith("IntoIterator") or c.endswith("::iter"))]
-        over_listeners = any(contains(describe_val(b, du, t["args"][0]), ".listeners") for t in iters)
+        # iterates self.listeners -- in the method itself or in a helper shared by the broadcast methods (judged on the
+        # method as one unit); the calls collected above already include the closures nested in the method
+        from rules.common import inl
+        ub = inl(f, b)
+        du = DefUse(ub)
+        iters = [t for (_x, t) in find_calls(ub, lambda c, t: (t.get("trait") or "").endswith("IntoIterator") or c.endswith("::iter"))]
+        over_listeners = any(contains(describe_val(ub, du, t["args"][0]), ".listeners") for t in iters)
+        # ... and that iteration is actually stepped (an Iterator::next in the unit).  NOT checked: that the element yielded
+        # is the receiver of the listener call (the value crosses a closure boundary as the closure's parameter); a loop
+        # that iterates the listeners but always calls the first one would pass this clause.
+        nx = [x for (x, t) in ub.calls() if norm(t.get("orig") or "").endswith("Iterator::next")]
+        over_listeners = over_listeners and bool(nx)
         if called == {n} and over_listeners:
             run.ok(rid, "broadcast/" + n, {"forwards_to": n, "iterates": "self.listeners"})
         else:
@@ -468,7 +476,8 @@ def run(tier):
         "T9 sole-writer of the state cell; T1/T5 report-once (change_state args, own callback once, broadcast to same-named listener method); "
         "T2 terminal short-circuit in resume_with; T6 yield classification in raw_resume. The tables are finite and compared exhaustively.",
         ["core/default"] + (["core/preemptive"] if tier == "thorough" else []),
-        not_decided=["that listeners observe the sequence for arbitrary bodies (follows from the table plus C08/C09 clauses)", "behaviour of user code that mutates a coroutine through raw pointers"],
+        not_decided=["that listeners observe the sequence for arbitrary bodies (follows from the table plus C08/C09 clauses)", "behaviour of user code that mutates a coroutine through raw pointers",
+                     "broadcast: that the listener yielded by the iteration is the receiver of the callback (only that the listeners are iterated and the same-named callback is called)"],
         assumptions=["derive(PartialEq) on CoroutineState/SyscallName compares variant and payload", "corosensei resumes the body only from Coroutine::resume"],
         exhaustive=True)
     for cfgname, f in fx.items():
